@@ -491,29 +491,55 @@ static const char* produce_file(const std::string& spath, const Seq& q, bool ope
 	return slurp_posix(spath, got) ? 0 : "posix-open";
 }
 
-static const char* produce_socket(const Seq& q, std::string& got)
+// number of send() calls the sequence causes (asl sends every scalar, and every element of an array on the swapped path, separately)
+static size_t count_sends(const Seq& q)
+{
+	size_t n = 0;
+	for (size_t i = 0; i < q.items.size(); i++) {
+		const Item& it = q.items[i];
+		if (it.kind == K_END) continue;
+		n += it.kind == K_ARR && swapped(it.in_force) ? it.arr.size() : it.kind == K_LSTR ? 2 : 1;
+	}
+	return n;
+}
+// few small sends fit in the socketpair's buffer: such a sequence is also run without threads (write everything, close, then read)
+static bool fits_in_socket_buffer(const Seq& q) { return count_sends(q) <= 64 && q.ref.size() <= 60000; }
+
+static void drain_fd(int rfd, std::string* gp)
+{
+	char buf[65536];
+	for (;;) {
+		ssize_t k = ::read(rfd, buf, sizeof buf);
+		if (k > 0) gp->append(buf, (size_t)k);
+		else if (k < 0 && errno == EINTR) continue;
+		else break;
+	}
+}
+
+static void socket_writer(int wfd, const Seq* qp)
+{
+	Socket w(wfd);
+	w.setEndian(asl_endian(qp->init));
+	write_all(w, *qp);
+	w.close();
+}
+
+static const char* produce_socket(const Seq& q, bool threaded, std::string& got)
 {
 	int fd[2];
 	if (socketpair(AF_UNIX, SOCK_STREAM, 0, fd) != 0) return "socketpair";
 	int rfd = fd[1];
 	got.clear();
 	std::string* gp = &got;
-	std::thread cap([rfd, gp]() {
-		char buf[65536];
-		for (;;) {
-			ssize_t k = ::read(rfd, buf, sizeof buf);
-			if (k > 0) gp->append(buf, (size_t)k);
-			else if (k < 0 && errno == EINTR) continue;
-			else break;
-		}
-	});
-	{
-		Socket w(fd[0]);
-		w.setEndian(asl_endian(q.init));
-		write_all(w, q);
-		w.close();
+	if (threaded || !fits_in_socket_buffer(q)) {
+		std::thread cap([rfd, gp]() { drain_fd(rfd, gp); });
+		socket_writer(fd[0], &q);
+		cap.join();
 	}
-	cap.join();
+	else {
+		socket_writer(fd[0], &q);
+		drain_fd(rfd, gp);
+	}
 	::close(rfd);
 	return 0;
 }
@@ -526,7 +552,7 @@ static const char* produce(int backend, vf::Ctx& c, const Seq& q, bool variant, 
 	switch (backend) {
 	case B_BUFFER: produce_buffer(q, variant, got, keep); return 0;
 	case B_FILE: return produce_file(c.opt->out + "/c16_stream.bin", q, variant, got);
-	default: return produce_socket(q, got);
+	default: return produce_socket(q, variant, got);
 	}
 }
 
@@ -640,32 +666,31 @@ static void run_file(vf::Ctx& c, const Seq& q)
 static void run_socket(vf::Ctx& c, const Seq& q)
 {
 	// pass 1: asl writes, the bytes are captured from the raw descriptor of the peer
-	c.op("Socket(fd) << ; raw read on the peer");
+	bool threaded = !fits_in_socket_buffer(q) || c.rng.chance(0.3);
+	c.count(threaded ? "socket_cases_writer_and_reader_concurrent" : "socket_cases_write_close_then_read");
+	c.op(threaded ? "Socket(fd) << ; raw read on the peer in a thread" : "Socket(fd) << ; close ; raw read on the peer");
 	std::string got;
-	const char* why = produce(B_SOCKET, c, q, true, got);
+	const char* why = produce(B_SOCKET, c, q, threaded, got);
 	if (why) { c.inconclusive(why); return; }
 	check_bytes(c, B_SOCKET, q, got);
 
-	// pass 2: asl writes in one thread, asl reads in this one
+	// pass 2: asl writes (in a thread unless the payload fits in the socket buffer), asl reads on the peer
 	int fd[2];
 	if (socketpair(AF_UNIX, SOCK_STREAM, 0, fd) != 0) { c.inconclusive("socketpair"); return; }
-	c.op("Socket(fd) << in a thread ; Socket(fd) >> on the peer");
+	c.op(threaded ? "Socket(fd) << in a thread ; Socket(fd) >> on the peer" : "Socket(fd) << ; close ; Socket(fd) >> on the peer");
 	Mismatch mm;
 	{
 		int wfd = fd[0];
 		const Seq* qp = &q;
-		std::thread wr([wfd, qp]() {
-			Socket w(wfd);
-			w.setEndian(asl_endian(qp->init));
-			write_all(w, *qp);
-			w.close();
-		});
+		std::thread wr;
+		if (threaded) wr = std::thread([wfd, qp]() { socket_writer(wfd, qp); });
+		else socket_writer(wfd, qp);
 		{
 			Socket r(fd[1]);
 			r.setEndian(asl_endian(q.init));
 			read_all(r, q, mm);
 			if (mm.bad) r.close();   // unblocks the writer if it is still sending
-			wr.join();
+			if (wr.joinable()) wr.join();
 			if (!mm.bad) {
 				char ch;
 				ssize_t k = ::recv(r.handle(), &ch, 1, MSG_DONTWAIT);
